@@ -17,9 +17,39 @@ from fractions import Fraction
 
 import numpy as np
 
-from ..common import MachineryError, frac, write_cfg
+from ..common import MachineryError, SPEC, TLCResult, frac, parse_tlc_output, write_cfg
 
 TOL = 1e-11
+
+
+def tlc(ctx, module, cfg, **kw):
+    """ctx.tlc; with C07_TLC_CACHE=<dir> (development aid for mutation runs: the TLC output does not depend on the
+    tree under test) the stdout of an identical run (same specs, same cfg, same options) is reused"""
+    import hashlib
+    import os
+    cache = os.environ.get('C07_TLC_CACHE')
+    if not cache:
+        return ctx.tlc(module, cfg, **kw)
+    h = hashlib.sha1()
+    for f in sorted(SPEC.glob('GeoFunc*.tla')) + [SPEC / 'BSplineRef.tla', SPEC / 'Rat.tla', SPEC / 'Emit.tla']:
+        h.update(f.read_bytes())
+    h.update(open(cfg, 'rb').read())
+    h.update(repr((module, sorted((k, v) for k, v in kw.items() if k not in ('timeout', 'must_pass', 'workers')))).encode())
+    path = os.path.join(cache, h.hexdigest() + '.out')
+    if os.path.exists(path):
+        res = TLCResult()
+        res.stdout = open(path).read()
+        parse_tlc_output(res.stdout, res)
+        ctx.states += res.distinct
+        ctx.transitions += res.generated
+        ctx.tlc_runs.append({'module': module, 'cfg': str(cfg), 'generated': res.generated, 'distinct': res.distinct, 'ok': res.ok,
+                             'violated': res.violated, 'wall_s': 0.0, 'records': {k: len(v) for k, v in res.records.items()},
+                             'cached': True})
+        return res
+    res = ctx.tlc(module, cfg, **kw)
+    os.makedirs(cache, exist_ok=True)
+    open(path, 'w').write(res.stdout)
+    return res
 
 
 # ----------------------------------------------------------------------------------
@@ -347,7 +377,7 @@ class Battery:
                 return False
         b = bad(X, E, scale)
         if b.any():
-            ix = tuple(int(t[0]) for t in np.nonzero(b))
+            ix = tuple(int(t) for t in np.argwhere(b)[0]) if b.ndim else ()
             self.viol(route + ('' if sdim is None else ' sdim=%d' % sdim), 'value mismatch', index=list(ix),
                       got=float(X[ix]), expected=float(E[ix]), nbad=int(b.sum()), of=int(b.size))
             return False
@@ -614,6 +644,7 @@ def run_case(ctx, agg, rec):
         for k, (x, y) in enumerate(zip(before, after)):
             if x != y:
                 bt.viol('immutability', 'operand %d altered by the operation' % k)
+        before = after
         if G2 is not None:
             G = G2
     desc = dict(kind=res['kind'], support=[[fr(lo), fr(hi)] for lo, hi in res['support']])
@@ -1047,7 +1078,7 @@ def ops_cfgs(ctx):
     """(universe, MaxSteps, MaxLive, simulate)"""
     if ctx.thorough:
         return [(1, 2, 6, None), (2, 2, 6, None), (3, 2, 6, None), (1, 4, 8, 60), (2, 4, 8, 60), (3, 4, 8, 60)]
-    return [(1, 2, 6, None), (2, 1, 6, None), (3, 1, 6, None), (2, 3, 7, 5), (3, 3, 7, 5)]
+    return [(1, 2, 6, None), (2, 1, 6, None), (3, 1, 6, None), (2, 3, 7, 3), (3, 3, 7, 3)]
 
 
 def apply_step(st, live):
@@ -1140,7 +1171,7 @@ def fam_runs(ctx):
     """(family, nparts, workers) per tier"""
     if ctx.thorough:
         return [('base', 8, 2), ('unary', 8, 2), ('binary', 8, 2), ('ctor', 2, 2)]
-    return [('base', 3, 2), ('unary', 2, 2), ('binary', 3, 2), ('ctor', 1, 2)]
+    return [('base', 2, 3), ('unary', 2, 2), ('binary', 2, 3), ('ctor', 1, 2)]
 
 
 def run(ctx):
@@ -1158,9 +1189,9 @@ def run(ctx):
         fam, nparts, part, workers = job
         for maxd in (2, 1):
             cfg = write_cfg(ctx.scratch / ('gf_%s_%d_%d.cfg' % (fam, part, maxd)),
-                            dict(Fam=fam, Thorough=ctx.thorough, NParts=nparts, Part=part, Seed=int(ctx.seed) % 1000, MaxD=maxd),
+                            dict(Fam=fam, Thorough=ctx.thorough, NParts=nparts, Part=part, Seed=int(ctx.seed) % 1000, MaxD=maxd, Mut=0),
                             invariants=['CaseOK'])
-            res = ctx.tlc('GeoFuncCases', cfg, workers=workers, timeout=7200, must_pass=False)
+            res = tlc(ctx, 'GeoFuncCases', cfg, workers=workers, timeout=7200, must_pass=False)
             if res.ok:
                 return fam, res
             if maxd == 2 and res.error and 'Overflow when computing' in res.error:
@@ -1176,26 +1207,37 @@ def run(ctx):
         cfg = write_cfg(ctx.scratch / (name + '.cfg'), dict(Universe=uni, MaxSteps=maxsteps, MaxLive=maxlive, DoEmit=True),
                         invariants=['AllWellFormed', 'EmitInit'], properties=['OperandsUnchanged'], view='View')
         kw = dict(simulate=sim, depth=maxsteps + 1, seed=int(ctx.seed) + 7) if sim else {}
-        return name, ctx.tlc('GeoFuncOps', cfg, workers=1 if sim else 2, timeout=7200, **kw)
+        return name, tlc(ctx, 'GeoFuncOps', cfg, workers=1 if sim else 2, timeout=7200, **kw)
+
+    ncomp = 3 if ctx.thorough else 1
 
     def run_comp_job(part):
-        nparts = 2
+        nparts = ncomp
         cfg = write_cfg(ctx.scratch / ('comp_%d.cfg' % part),
                         dict(Thorough=ctx.thorough, NParts=nparts, Part=part, Seed=int(ctx.seed) % 1000), invariants=['CaseOK'])
-        return ctx.tlc('GeoFuncComp', cfg, workers=2, timeout=7200)
+        return tlc(ctx, 'GeoFuncComp', cfg, workers=2, timeout=7200)
 
     def run_named_job():
         cfg = write_cfg(ctx.scratch / 'named.cfg', dict(Thorough=ctx.thorough, Seed=int(ctx.seed) % 1000), invariants=['CaseOK'])
-        return ctx.tlc('GeoFuncNamed', cfg, workers=2, timeout=7200)
+        return tlc(ctx, 'GeoFuncNamed', cfg, workers=2, timeout=7200)
 
-    with ThreadPoolExecutor(6) as ex:
+    def neg_control(item):
+        fam, mut = item
+        cfg = write_cfg(ctx.scratch / ('gf_neg_%d.cfg' % mut),
+                        dict(Fam=fam, Thorough=False, NParts=1, Part=0, Seed=int(ctx.seed) % 1000, MaxD=1, Mut=mut), invariants=['CaseOK'])
+        ctx.expect_violation('GeoFuncCases', cfg, invariant='CaseOK', workers=1)
+
+    with ThreadPoolExecutor(8) as ex:
+        fut_neg = [ex.submit(neg_control, it) for it in (('binary', 1), ('unary', 2))]
         fut_named = ex.submit(run_named_job)
-        fut_comp = [ex.submit(run_comp_job, p) for p in range(2)]
+        fut_comp = [ex.submit(run_comp_job, p) for p in range(ncomp)]
         fut_ops = [ex.submit(run_ops_job, it) for it in ops_cfgs(ctx)]
         results = list(ex.map(run_job, jobs))
         ops_results = [f.result() for f in fut_ops]
         comp_results = [f.result() for f in fut_comp]
         named_result = fut_named.result()
+        for f in fut_neg:
+            f.result()
     n = 0
     for fam, res in results:
         for rec in sorted(res.recs('CASE'), key=lambda r: r['id']):
